@@ -4,6 +4,7 @@
 #include "utils/iwxstr.c"
 #include "utils/iwpool.c"
 #include "iwrb.h"
+#include "utils/iwchars.h"
 #include "probe.h"
 
 static void samples32(const char *name, const uint64_t *xs, int n, int is64) {
@@ -24,6 +25,13 @@ int main(void) {
   ZV("CONT_IWPOOL_POOL_SIZ", IWPOOL_POOL_SIZ);
   ZV("CONT_sizeof_IWRB", sizeof(IWRB));
   ZV("CONT_sizeof_IWLISTITEM", sizeof(IWLISTITEM));
+  ZV("CONT_sizeof_charptr", sizeof(char*));
+  {
+    // iwchars_is_space on every byte value (the trimming of iwpool_split_string; bytes >= 0x80 are negative chars)
+    printf("Definition CONT_is_space_table : list Z := [");
+    for (int c = 0; c < 256; ++c) printf("%s%d", c ? "; " : "", (int) iwchars_is_space((char) c));
+    printf("].\n");
+  }
   ZV("CONT_IW_ERROR_OUT_OF_BOUNDS", IW_ERROR_OUT_OF_BOUNDS);
   {
     // iwhmap_create: initial mask
